@@ -94,7 +94,7 @@ def verifier_db(users):
 SET_LISTS = ['cipherNames', 'macNames', 'keyExchangeNames', 'eccCurves', 'dhGroups', 'keyShares',
              'rsaSigHashes', 'rsaSchemes', 'ecdsaSigHashes', 'dsaSigHashes', 'more_sig_schemes']
 SET_SCALARS = ['minKeySize', 'maxKeySize', 'useEncryptThenMAC', 'useExtendedMasterSecret',
-               'requireExtendedMasterSecret', 'record_size_limit', 'defaultCurve']
+               'requireExtendedMasterSecret', 'record_size_limit', 'defaultCurve', 'use_heartbeat_extension']
 
 
 def default_settings_dict():
@@ -107,6 +107,7 @@ def default_settings_dict():
     d['versions'] = [list(v) for v in s.versions]
     d['psks'] = []          # [(identity id, hash or None)]
     d['psk_modes'] = list(s.psk_modes)
+    d['ticket_keys'] = False
     return d
 
 
@@ -122,6 +123,8 @@ def mk_settings(d):
     s.versions = [tuple(v) for v in d['versions']]
     s.pskConfigs = [((b'psk-id-%d' % i, b'\x11' * 32 + bytes([i])) + ((h,) if h else ())) for i, h in d['psks']]
     s.psk_modes = list(d['psk_modes'])
+    if d.get('ticket_keys'):
+        s.ticketKeys = [bytearray(b'\x2a' * 32)]
     return s
 
 
@@ -142,19 +145,20 @@ def cert_lit(name):
 FLAVOUR = {'cert': 0, 'srp': 1, 'anon': 2}
 
 
-def case_lits(case, cval, sval, hello2_len=0):
+def case_lits(case, cval, sval, hello2_len=0, nst_len=0):
     c, s = case['client'], case['server']
     cl = ('{| cl_set := %s; cl_flavour := %d; cl_cert := %s; cl_alpn := %s; cl_npn := %s; cl_sni := %s; '
-          'cl_srp_user := %d; cl_fallback := false; cl_hello2_len := %d |}' % (
+          'cl_srp_user := %d; cl_fallback := false; cl_ticket := %s; cl_hello2_len := %d |}' % (
               settings_lit(c['settings'], cval), FLAVOUR[c['flavour']], cert_lit(c.get('cert')),
               optlit(c.get('alpn'), lambda l: listlit(l, zlit)), optlit(c.get('npn'), lambda l: listlit(l, zlit)),
-              optlit(c.get('sni'), zlit), c.get('srp_user', 0), hello2_len))
+              optlit(c.get('sni'), zlit), c.get('srp_user', 0), optlit(c.get('ticket_prf'), zlit), hello2_len))
     sv = ('{| sv_set := %s; sv_cert := %s; sv_srp := %s; sv_anon := %s; sv_req_cert := %s; sv_alpn := %s; '
-          'sv_npn := %s |}' % (
+          'sv_npn := %s; sv_nst_len := %d; sv_ticket := %s |}' % (
               settings_lit(s['settings'], sval), cert_lit(s.get('cert')),
               optlit(s.get('srp'), lambda us: '[' + ';'.join('(%d,%d)' % (u, SRP_USERS[u]) for u in us) + ']'),
               boollit(bool(s.get('anon'))), boollit(bool(s.get('req_cert'))),
-              optlit(s.get('alpn'), lambda l: listlit(l, zlit)), optlit(s.get('npn'), lambda l: listlit(l, zlit))))
+              optlit(s.get('alpn'), lambda l: listlit(l, zlit)), optlit(s.get('npn'), lambda l: listlit(l, zlit)),
+              nst_len, optlit(s.get('ticket_prf'), zlit)))
     return cl, sv
 
 
@@ -209,9 +213,10 @@ def _side(conn, ok):
     return o
 
 
-def _run_live(case, want_secrets):
+def _connect(c, s, session=None, shared=None):
+    """One connection between the client description c and the server description s (dicts as in a case).
+    shared: dict kept between the connections of one history (server session cache)."""
     import loop
-    c, s = case['client'], case['server']
     p = loop.Pair()
     ckw = {'settings': mk_settings(c['settings'])}
     kind = c['flavour']
@@ -226,6 +231,8 @@ def _run_live(case, want_secrets):
         ckw['nextProtos'] = [proto(i) for i in c['npn']]
     if c.get('sni') is not None:
         ckw['serverName'] = host(c['sni'])
+    if session is not None:
+        ckw['session'] = session
     skw = {'settings': mk_settings(s['settings'])}
     if s.get('cert'):
         ch, k = cred(s['cert'])
@@ -240,21 +247,86 @@ def _run_live(case, want_secrets):
         skw['alpn'] = [proto(i) for i in s['alpn']]
     if s.get('npn') is not None:
         skw['nextProtos'] = [proto(i) for i in s['npn']]
+    if shared is not None and shared.get('cache') is not None:
+        skw['sessionCache'] = shared['cache']
     try:
         co, so = p.handshake(client_kw=ckw, server_kw=skw, client_kind=kind)
     except ValueError as e:
-        return {'config_error': str(e)[:200]}
+        return {'config_error': str(e)[:200]}, p
     cc, sc = loop.classify(co), loop.classify(so)
     obs = {'client_outcome': list(cc), 'server_outcome': list(sc), 'hello2_len': hello2_len(p.csock),
+           'nst_len': nst_len(p.ssock),
            'hello_sent': bool(p.csock.sent_log),
            'client': _side(p.client, cc == ('ok',)), 'server': _side(p.server, sc == ('ok',))}
     if cc == ('ok',) and sc == ('ok',):
-        # data both ways proves the record protection parameters are really shared
+        obs['client']['resumed'] = bool(p.client.resumed)
+        obs['server']['resumed'] = bool(p.server.resumed)
+        # data both ways proves the record protection parameters (and record size limits) are really shared
         for src, dst, tag in ((p.client, p.server, 'c2s'), (p.server, p.client, 's2c')):
-            msg = b'C03 ' + tag.encode() + b' ' * 200
-            w, r, got = p.transfer(src, dst, msg)
-            obs['data_' + tag] = (got == msg)
+            msg = (b'C03 ' + tag.encode() + b' ') * 750          # 6000 bytes: several records under a small limit
+            try:
+                w, r, got = p.transfer(src, dst, msg)
+                obs['data_' + tag] = (got == msg)
+            except Exception as e:  # noqa
+                obs['data_' + tag] = False
+    return obs, p
+
+
+def second_side(side, over):
+    """description of a side for the second connection of a history: same credentials, settings overridden"""
+    d = dict(side)
+    d['settings'] = dict(side['settings'])
+    d['settings'].update(over.get('settings', {}))
+    for k in ('alpn',):
+        if k in over:
+            d[k] = over[k]
+    return d
+
+
+def _run_live(case, want_secrets):
+    res = case.get('resume')
+    shared = None
+    if res:
+        from tlslite.api import SessionCache
+        shared = {'cache': SessionCache() if res['kind'] == 'id' else None}
+    obs, p = _connect(case['client'], case['server'], shared=shared)
+    if 'config_error' in obs:
+        return obs
+    if res and obs['client_outcome'] == ['ok'] and obs['server_outcome'] == ['ok']:
+        c2 = second_side(case['client'], res.get('c2', {}))
+        s2 = second_side(case['server'], res.get('s2', {}))
+        try:
+            mk_settings(c2['settings']).validate()
+            mk_settings(s2['settings']).validate()
+        except ValueError as e:
+            obs['second'] = {'config_error': str(e)[:200]}
+            return obs
+        o2, _ = _connect(c2, s2, session=p.client.session, shared=shared)
+        obs['second'] = o2
     return obs
+
+
+def nst_len(sock):
+    """length of the plaintext NewSessionTicket record (handshake type 4) the server sent before its first
+    ChangeCipherSpec, 0 if there is none"""
+    data = b''.join(sock.sent_log)
+    i = 0
+    while i + 5 <= len(data):
+        ty, ln = data[i], (data[i + 3] << 8) | data[i + 4]
+        if ty == 20:
+            return 0
+        if ty == 22 and data[i + 5:i + 6] == b'\x04':
+            return ln
+        if ty == 22:
+            # several handshake messages may share one record: walk them
+            j, end = i + 5, i + 5 + ln
+            while j + 4 <= end:
+                mlen = int.from_bytes(data[j + 1:j + 4], 'big')
+                if data[j] == 4:
+                    return ln
+                j += 4 + mlen
+        i += 5 + ln
+    return 0
 
 
 def hello2_len(sock):
@@ -315,6 +387,39 @@ def obs_tuple(obs):
     return code, zs, os_
 
 
+def obs2_lit(o2):
+    code = outcome_code(o2)
+    if code != 0:
+        return '(%d, [], [])' % code
+    c, s = o2['client'], o2['server']
+    zs = [int(bool(c.get('resumed'))), c['version'][1], s['version'][1], c['suite'], s['suite'], int(c['etm']), int(s['etm']),
+          int(c['ems']), int(s['ems']), c['send'], c['recv'], s['send'], s['recv']]
+    os_ = [proto_id(c['alpn']), proto_id(s['alpn']), sni_id(c['sni']), sni_id(s['sni'])]
+    return '(%d, %s, %s)' % (code, listlit(zs, zlit), listlit(os_, lambda x: optlit(x, zlit)))
+
+
+def history_lit(case, obs, cval, sval):
+    """Gallina Case2T literal for the second (resumed) connection of a history, or None"""
+    o2 = obs.get('second')
+    if not o2 or 'config_error' in o2 or outcome_code(obs) != 0:
+        return None
+    from tlslite.constants import CipherSuite
+    res = case['resume']
+    c2 = second_side(case['client'], res.get('c2', {}))
+    s2 = second_side(case['server'], res.get('s2', {}))
+    legacy = obs['client']['version'][1] <= 3
+    if not legacy and res['kind'] == 'ticket' and case['server']['settings'].get('ticket_keys'):
+        prf = 1 if obs['client']['suite'] in CipherSuite.sha384PrfSuites else 0
+        c2['ticket_prf'] = prf
+        if s2['settings'].get('ticket_keys'):
+            s2['ticket_prf'] = prf
+    c2v = mk_settings(c2['settings']).validate()
+    s2v = mk_settings(s2['settings']).validate()
+    cl, sv = case_lits(case, cval, sval, obs.get('hello2_len', 0), obs.get('nst_len', 0))
+    cl2, sv2 = case_lits({'client': c2, 'server': s2}, c2v, s2v, o2.get('hello2_len', 0), o2.get('nst_len', 0))
+    return '(%s, %s, %s, %s, %s, %s, %s)' % (cl, sv, cl2, sv2, boollit(legacy), boollit(res['kind'] == 'ticket'), obs2_lit(o2))
+
+
 def obs_lit(obs):
     code, zs, os_ = obs_tuple(obs)
     return '(%d, %s, %s)' % (code, listlit(zs, zlit), listlit(os_, lambda x: optlit(x, zlit)))
@@ -345,6 +450,30 @@ Fixpoint olist_eqb (a b : list (option Z)) : bool :=
 Definition obs_eqb (a b : ObsT) : bool :=
   let '(c1, z1, o1) := a in let '(c2, z2, o2) := b in
   (c1 =? c2) && list_eqb z1 z2 && olist_eqb o1 o2.
+Definition summary2 (r : res Resumed) : ObsT :=
+  match r with
+  | Err (OtherExn c) => (c, [], [])
+  | Err _ => (9998, [], [])
+  | Ok x =>
+      let c := rs_client x in let s := rs_server x in
+      (0, [b2z (rs_resumed x); vw_version c; vw_version s; vw_suite c; vw_suite s; b2z (vw_etm c); b2z (vw_etm s);
+           b2z (vw_ems c); b2z (vw_ems s); vw_send_limit c; vw_recv_limit c; vw_send_limit s; vw_recv_limit s],
+          [vw_alpn c; vw_alpn s; vw_sni c; vw_sni s])
+  end.
+(* TLS 1.3: the second connection is `negotiate` with the ticket offered as PSK identity 999 *)
+Definition of_outcome (r : res Outcome) : res Resumed :=
+  match r with
+  | Ok o => Ok {| rs_resumed := match si_psk (vw_secret (oc_client o)) with Some i => i =? ticket_identity | None => false end;
+                  rs_client := oc_client o; rs_server := oc_server o |}
+  | Err e => Err e end.
+Definition Case2T := (Client * Server * Client * Server * bool * bool * ObsT)%type.
+Definition chk_model2 (k : Case2T) : bool :=
+  let '(c, s, c2, s2, legacy, ticket, o) := k in
+  obs_eqb (summary2 (if legacy
+                     then match negotiate c s with
+                          | Ok o1 => resume_legacy ticket c2 s2 (oc_client o1) (oc_server o1)
+                          | Err e => Err e end
+                     else of_outcome (negotiate c2 s2))) o.
 Definition CaseT := (Client * Server * ObsT)%type.
 Definition chk_model (k : CaseT) : bool := let '(c, s, o) := k in obs_eqb (summary (negotiate c s)) o.
 '''
@@ -409,11 +538,29 @@ def sig_in_policy(sig, st):
     return False
 
 
-def property_oracle(case, obs, cval, sval):
+def property_oracle(case, obs, cval, sval, resumed=None):
     """The property text evaluated directly on the observation.  Returns a list of
     (stable key, description) for every way the property fails on this run."""
     from tlslite.constants import GroupName
     bad = []
+    if resumed:
+        # second connection of a history: same property, keys tagged with the resumption mechanism
+        inner = property_oracle(case, obs, cval, sval)
+        out = []
+        for k, what in inner:
+            if k.startswith('views-differ:schain') or k.startswith('views-differ:cchain'):
+                continue      # the chains of a resumed connection are those of the original session (checked there)
+            if k.startswith('views-differ:ems_conn:'):
+                k = 'views-differ:ems_conn'          # one class whatever the version
+            if k.startswith('views-differ:alpn:'):
+                k = 'views-differ:alpn'
+            out.append(('%s:resumed-%s' % (k, resumed), 'on the connection resumed by %s: %s' % (resumed, what)))
+        c, s = obs['client'], obs['server']
+        if obs['client_outcome'] == ['ok'] and obs['server_outcome'] == ['ok'] and c['version'][1] <= 3 \
+                and c.get('resumed') != s.get('resumed'):
+            out.append(('views-differ:resumed-flag:resumed-%s' % resumed,
+                        'client resumed=%r but server resumed=%r' % (c.get('resumed'), s.get('resumed'))))
+        return out
     cc, sc = obs['client_outcome'], obs['server_outcome']
     c, s = obs['client'], obs['server']
     both = cc == ['ok'] and sc == ['ok']
@@ -477,6 +624,13 @@ def property_oracle(case, obs, cval, sval):
                 bad.append(('policy:%s:group:%s:v%d' % (side, g, v), '%s: group %s not in eccCurves/dhGroups %r' % (side, g, allowed)))
         if c['sig'] is not None and not sig_in_policy(c['sig'], st):
             bad.append(('policy:%s:sigscheme:%r:v%d' % (side, tuple(c['sig']), v), '%s: signature scheme %r outside its configured schemes' % (side, c['sig'])))
+    # TLS 1.3 PSK key-exchange mode (psk_ke / psk_dhe_ke) inside both sides' psk_modes
+    if v >= 4 and c['schain'] is None:        # no server certificate in TLS 1.3: a PSK was selected
+        mode = 'psk_ke' if c['curve'] is None else 'psk_dhe_ke'
+        for side, st in (('client', cval), ('server', sval)):
+            if mode not in st.psk_modes:
+                bad.append(('policy:%s:psk-mode:%s' % (side, mode),
+                            '%s completed a PSK handshake in mode %s, its psk_modes are %r' % (side, mode, st.psk_modes)))
     # peer key sizes / DH sizes (documented: "SRP, RSA, DSA, or Diffie-Hellman parameters")
     if c['dh_bits'] is not None and not (cval.minKeySize <= c['dh_bits'] <= cval.maxKeySize):
         bad.append(('policy:client:dh-size-outside-key-size', 'client accepted a %d-bit DH group with minKeySize=%d maxKeySize=%d'
@@ -506,6 +660,19 @@ def property_oracle(case, obs, cval, sval):
         if alg in (3, 4) and kind not in st.more_sig_schemes:
             bad.append(('policy:%s:peer-eddsa:%s:v%d' % (side, kind, v),
                         '%s accepted an %s peer key, not in its more_sig_schemes %r' % (side, kind, st.more_sig_schemes)))
+    return bad
+
+
+def history_oracle(case, obs, cval, sval):
+    """property_oracle on the first connection and, when the history has one, on the resumed second connection"""
+    bad = property_oracle(case, obs, cval, sval)
+    o2 = obs.get('second')
+    if o2 and 'config_error' not in o2:
+        res = case['resume']
+        c2 = mk_settings(second_side(case['client'], res.get('c2', {}))['settings']).validate()
+        s2 = mk_settings(second_side(case['server'], res.get('s2', {}))['settings']).validate()
+        case2 = dict(case, client=second_side(case['client'], res.get('c2', {})), server=second_side(case['server'], res.get('s2', {})))
+        bad += property_oracle(case2, o2, c2, s2, resumed=res['kind'])
     return bad
 
 
@@ -575,6 +742,8 @@ def gen_settings(rng, role, heavy=0.5):
         d['record_size_limit'] = rng.choice([None, 64, 65, 100, 512, 1000, 2 ** 14 - 1, 2 ** 14, 2 ** 14 + 1])
     if maybe(0.2):
         d['defaultCurve'] = rng.choice(['secp256r1', 'secp384r1', 'x25519'])
+    if maybe(0.3):
+        d['use_heartbeat_extension'] = rng.random() < 0.5
     return d
 
 
@@ -621,7 +790,38 @@ def gen_case(rng, idx):
         s['npn'] = sub(rng, [0, 1, 2, 3], nonempty=False)
     if rng.random() < 0.4:
         c['sni'] = rng.randrange(3)
-    return {'id': idx, 'client': c, 'server': s}
+    case = {'id': idx, 'client': c, 'server': s}
+    if rng.random() < 0.35 and not c['settings']['psks']:
+        case['resume'] = gen_resume(rng, case)
+    return case
+
+
+def gen_resume(rng, case):
+    """second connection of a history: resumption by session ID (server cache) or by ticket (ticketKeys; in
+    TLS 1.3 this is PSK resumption), with a random subset of the dimensions that are renegotiated on every
+    connection redrawn on either side"""
+    kind = rng.choice(['id', 'ticket', 'ticket'])
+    if kind == 'ticket':
+        case['server']['settings']['ticket_keys'] = True
+
+    def over(side):
+        st = {}
+        if rng.random() < 0.4:
+            st['record_size_limit'] = rng.choice([None, 64, 512, 1024, 2048, 2 ** 14, 2 ** 14 + 1])
+        if rng.random() < 0.4:
+            st['use_heartbeat_extension'] = rng.random() < 0.5
+        if rng.random() < 0.2:
+            st['useEncryptThenMAC'] = rng.random() < 0.5
+        if rng.random() < 0.15:
+            st['useExtendedMasterSecret'] = rng.random() < 0.5
+            st['requireExtendedMasterSecret'] = False
+        if rng.random() < 0.15:
+            st['psk_modes'] = rng.choice([['psk_dhe_ke'], ['psk_ke'], ['psk_dhe_ke', 'psk_ke']])
+        o = {'settings': st}
+        if rng.random() < 0.3 and (side == 's' or case['client']['flavour'] == 'cert'):
+            o['alpn'] = rng.choice([None, [0], [1, 0], [2]])
+        return o
+    return {'kind': kind, 'c2': over('c'), 's2': over('s')}
 
 
 def boundary_key_cases():
@@ -730,4 +930,52 @@ def fixed_cases():
          s_req_cert=True, c_cert='client-ed25519')
     case(cmod={'more_sig_schemes': ['Ed448']}, s_cert='rsa', s_req_cert=True, c_cert='client-ed25519')
     case(cmod={'requireExtendedMasterSecret': True, 'maxVersion': [3, 3], 'versions': [[3, 3], [3, 2], [3, 1]]}, s_cert='rsa')
+    # all 3 x 3 combinations of psk_modes with a shared external PSK, server with and without a certificate
+    modes = [['psk_dhe_ke'], ['psk_ke'], ['psk_dhe_ke', 'psk_ke']]
+    for cm in modes:
+        for sm in modes:
+            for scert in (None, 'rsa'):
+                kw = {'s_cert': scert} if scert else {}
+                case(cmod={'psks': [(0, None)], 'psk_modes': cm}, smod={'psks': [(0, None)], 'psk_modes': sm}, **kw)
+    out += resume_cases()
     return out + boundary_key_cases()
+
+
+def resume_cases():
+    """Directed histories: a full handshake followed by a resumed connection (session ID, RFC 5077 ticket,
+    TLS 1.3 ticket PSK) with record_size_limit x heartbeat x ALPN x EtM/EMS varied on the second connection."""
+    D = default_settings_dict
+    out = []
+    tls12 = {'maxVersion': [3, 3], 'versions': [[3, 3], [3, 2], [3, 1]]}
+    tls10 = {'maxVersion': [3, 1], 'versions': [[3, 1]]}
+    for vname, vmod in (('tls12', tls12), ('tls10', tls10), ('tls13', {})):
+        for kind in ('id', 'ticket'):
+            if vname == 'tls13' and kind == 'id':
+                continue
+            for hb_c in (True, False):
+                for (rc, rs) in ((1024, 2048), (None, None), (2 ** 14 + 1, 100)):
+                    for alpn in (None, [1, 0]):
+                        c = {'settings': D(), 'flavour': 'cert', 'sni': 1}
+                        s = {'settings': D(), 'cert': 'rsa'}
+                        c['settings'].update(vmod)
+                        c['settings'].update({'use_heartbeat_extension': hb_c, 'record_size_limit': rc})
+                        s['settings'].update({'record_size_limit': rs, 'ticket_keys': kind == 'ticket'})
+                        if alpn is not None:
+                            c['alpn'] = alpn
+                            s['alpn'] = [0, 1]
+                        out.append({'id': 'resume-%s-%s-%d' % (vname, kind, len(out)), 'client': c, 'server': s,
+                                    'resume': {'kind': kind, 'c2': {}, 's2': {}}})
+    # ALPN negotiated on the first connection, not offered on the resumed one
+    for kind in ('id', 'ticket'):
+        c = {'settings': dict(D(), **tls12), 'flavour': 'cert', 'alpn': [1]}
+        s = {'settings': dict(D(), ticket_keys=kind == 'ticket'), 'cert': 'rsa', 'alpn': [1, 0]}
+        out.append({'id': 'resume-alpn-drop-%s-%d' % (kind, len(out)), 'client': c, 'server': s,
+                    'resume': {'kind': kind, 'c2': {'alpn': None}, 's2': {}}})
+    # the renegotiated dimensions changed between the two connections
+    for kind in ('id', 'ticket'):
+        c = {'settings': dict(D(), **tls12), 'flavour': 'cert'}
+        s = {'settings': dict(D(), ticket_keys=kind == 'ticket'), 'cert': 'ecdsa'}
+        out.append({'id': 'resume-change-%s-%d' % (kind, len(out)), 'client': c, 'server': s,
+                    'resume': {'kind': kind, 'c2': {'settings': {'record_size_limit': 512, 'use_heartbeat_extension': False}},
+                               's2': {'settings': {'record_size_limit': 700}, 'alpn': [2]}}})
+    return out
